@@ -117,10 +117,11 @@ class SeedCompare(SubCheck):
         if impl == "real":
             return self.run_real(e, shape, files)
         core = self.core_model
-        solver_modname = "whatshap.polyphase.solver"
-        w = SymWorld(overrides={"whatshap.core": core, solver_modname: types.SimpleNamespace(SwitchFlipCalculator=None), "whatshap.cli": self._climod()}, shadows=nondet.shadows(), transformer=nondet.transformer)
-        cmp_mod = w.load("whatshap.cli.compare")
-        vcf = w.load("whatshap.vcf")
+        if not hasattr(self, "_world"):
+            solver_modname = "whatshap.polyphase.solver"
+            w = SymWorld(overrides={"whatshap.core": core, solver_modname: types.SimpleNamespace(SwitchFlipCalculator=None), "whatshap.cli": self._climod()}, shadows=nondet.shadows(), transformer=nondet.transformer)
+            self._world = (w.load("whatshap.cli.compare"), w.load("whatshap.vcf"))
+        cmp_mod, vcf = self._world
         iterated = [0]
 
         def run(order_hook):
@@ -227,3 +228,168 @@ class SeedCompare(SubCheck):
 
 
 SUBCHECKS = {c.name: c for c in [SeedCompare()]}
+
+
+class SeedPolyphase(SubCheck):
+    """run_polyphase's per-chromosome / per-sample orchestration under stubs, with the iteration order of
+    frozenset(samples) (and of every other set of strings) chosen by the solver."""
+
+    name = "seed_polyphase"
+    encoded = ["whatshap.cli.polyphase.run_polyphase (sample loop, variant-table filtering, result collection)", "whatshap.vcf.VariantTable.remove_rows_by_index / subset_rows_by_position / genotypes_of"]
+    sources = ["whatshap/cli/polyphase.py", "whatshap/vcf.py"]
+    stubs = ["PhasedInputReader.read returns one read over all offered variants", "phase_single_individual replaced by a deterministic function of (sample, variants offered) - the clustering/threading heuristics are not applicable (DESIGN C15)", "VcfReader yields a harness-built table, PhasedVcfWriter records what it is given", "set/frozenset -> vf/pysym/nondet.py", "replay: the real `whatshap polyphase` on tests/data/polyploid.multisample.chr22.42M.5k.vcf + two BAMs under 4 PYTHONHASHSEED values"]
+    assumptions = ["as seed_compare"]
+    required_cover = ["two samples with different heterozygous sets", "sample set iterated in a solver-chosen order"]
+    replay_every = 1000
+
+    def shapes(self, tier):
+        return [dict(nsamples=2, nvar=3), dict(nsamples=3, nvar=3)] if tier == "quick" else [dict(nsamples=2, nvar=3), dict(nsamples=3, nvar=3), dict(nsamples=3, nvar=4)]
+
+    def bounds(self, tier):
+        return "2-3 samples, 3 (thorough: 4) variants with solver-chosen het/hom genotype per sample and variant, one chromosome; every iteration over a set of sample names in a solver-chosen order"
+
+    def setup(self):
+        from vf.models import core_model
+
+        self.core_model = core_model
+
+    def sym_impl(self):
+        return "sym"
+
+    def real_impl(self):
+        return "real"
+
+    def harness(self, e, shape, impl):
+        names = ["sA", "sB", "sC"][: shape["nsamples"]]
+        nvar = shape["nvar"]
+        het = {s: [e.bit("het_%s_%d" % (s, v)) for v in range(nvar)] for s in names}
+        if len({tuple(h) for h in het.values()}) > 1:
+            e.cover("two samples with different heterozygous sets")
+        if impl == "real":
+            return self.run_real(e)
+        core = self.core_model
+        if not hasattr(self, "_world"):
+            self._world = self._load_world(core)
+        mod, vcf = self._world
+        return self._run_sym(e, shape, names, nvar, het, core, mod, vcf)
+
+    def _load_world(self, core):
+        climod = types.ModuleType("whatshap.cli")
+        climod.__path__ = []
+        climod.CommandLineError = type("CommandLineError", (Exception,), {})
+        climod.log_memory_usage = lambda *a, **k: None
+        climod.PhasedInputReader = None
+        pp = types.ModuleType("whatshap.polyphase")
+        pp.__path__ = []
+        pp.PolyphaseParameter = lambda **k: types.SimpleNamespace(**k)
+        pp.create_genotype_list = pp.extract_partial_phasing = None
+        stubmod = lambda **k: types.SimpleNamespace(**k)
+        w = SymWorld(
+            overrides={"whatshap.core": core, "whatshap.cli": climod, "whatshap.polyphase": pp, "whatshap.polyphase.algorithm": stubmod(solve_polyphase_instance=None, compute_cut_positions=None), "whatshap.polyphase.plots": stubmod(draw_plots=None), "whatshap.polyphase.solver": stubmod(AlleleMatrix=None)},
+            shadows=nondet.shadows(),
+            transformer=nondet.transformer,
+        )
+        return w.load("whatshap.cli.polyphase"), w.load("whatshap.vcf")
+
+    def _run_sym(self, e, shape, names, nvar, het, core, mod, vcf):
+        def run(hook):
+            written = []
+            vt = vcf.VariantTable("chr1", names)
+            for v in range(nvar):
+                vt.add_variant(vcf.BiallelicVcfVariant(100 * (v + 1), "A", "C"), [core.Genotype([0, 1] if het[s][v] else [0, 0]) for s in names], [None] * len(names), [None] * len(names), [None] * len(names))
+
+            class Reader:
+                def __init__(s, *a, **k):
+                    s.samples = list(names)
+
+                def __enter__(s):
+                    return s
+
+                def __exit__(s, *a):
+                    return None
+
+                def __iter__(s):
+                    return iter([vt])
+
+            class Writer:
+                def __init__(s, *a, **k):
+                    pass
+
+                def __enter__(s):
+                    return s
+
+                def __exit__(s, *a):
+                    return None
+
+                def write(s, chromosome, superreads, components, haploid=None):
+                    written.append((chromosome, sorted((k, v) for k, v in superreads.items()), sorted((k, sorted(v.items())) for k, v in components.items())))
+
+            class Input:
+                has_vcfs = False
+
+                def __init__(s, paths, ref, nsi, *a, **k):
+                    s.nsi = nsi
+
+                def __enter__(s):
+                    return s
+
+                def __exit__(s, *a):
+                    return None
+
+                def read(s, chromosome, variants, sample):
+                    rs = core.ReadSet()
+                    r = core.Read("r_" + sample, 50, 0, s.nsi[sample])
+                    for vv in variants:
+                        r.add_variant(vv.position, 0, 10)
+                    rs.add(r)
+                    return rs, set()
+
+            def phase_single(readset, table, sample, param, output, timers):
+                pos = [v.position for v in table.variants]
+                return {p: pos[0] for p in pos}, {}, tuple(pos)
+
+            mod.VcfReader, mod.PhasedVcfWriter, mod.PhasedInputReader, mod.phase_single_individual = Reader, Writer, Input, phase_single
+            nondet.ORDER_HOOK = hook
+            try:
+                mod.run_polyphase(["x.bam"], "in.vcf", 2, output=io.StringIO(), write_command_line_header=False)
+            finally:
+                nondet.ORDER_HOOK = None
+            return written
+
+        base = run(None)
+        cnt = [0]
+
+        def hook(items):
+            cnt[0] += 1
+            return [items[i] for i in e.perm("ord%d" % cnt[0], len(items))]
+
+        other = run(hook)
+        if cnt[0]:
+            e.cover("sample set iterated in a solver-chosen order")
+        e.check(base == other, "what polyphase writes depends on the iteration order of the sample set (hash seed)", lambda: dict(canonical=str(base)[:500], other=str(other)[:500]))
+
+    def run_real(self, e):
+        data = os.path.join(REPO, "tests", "data")
+        vcf_in = os.path.join(data, "polyploid.multisample.chr22.42M.5k.vcf")
+        bams = [os.path.join(data, "polyploid.human1.chr22.42M.5k.bam"), os.path.join(data, "polyploid.human2.chr22.42M.5k.bam")]
+        if not (os.path.exists(vcf_in) and all(os.path.exists(b) for b in bams)):
+            return
+        tmp = tempfile.mkdtemp(prefix="c16p-", dir="/var/tmp")
+        try:
+            outs = []
+            for seed in ("0", "1", "2", "3"):
+                out = os.path.join(tmp, "o%s.vcf" % seed)
+                env = dict(os.environ, PYTHONHASHSEED=seed, PYTHONPATH=REPO + os.pathsep + os.environ.get("PYTHONPATH", ""))
+                r = subprocess.run([sys.executable, "-m", "whatshap", "polyphase", "--ploidy", "2", "-o", out, vcf_in] + bams, stdout=subprocess.PIPE, stderr=subprocess.PIPE, text=True, env=env, cwd=tmp)
+                txt = "".join(l for l in open(out) if not l.startswith("##commandline")) if os.path.exists(out) else "rc=%d" % r.returncode
+                outs.append(txt)
+            for o in outs[1:]:
+                e.check(o == outs[0], "what polyphase writes depends on the iteration order of the sample set (hash seed)", None)
+        finally:
+            shutil.rmtree(tmp, ignore_errors=True)
+
+    def classify(self, shape, v):
+        return "seed_polyphase:%s" % v["msg"]
+
+
+SUBCHECKS["seed_polyphase"] = SeedPolyphase()
